@@ -405,3 +405,58 @@ def check_simplify_models(ctx, rep, f=None, rule=RULE + '.M38'):
         rep.undecided(rule, f, 'def ' + f.name, 'outside the evaluator: {}'.format(e))
         return
     rep.holds(rule, f, 'def ' + f.name, 'on {} model expressions (twelve of them over the letters 0 and 1, which print like the constants) the simplified expression denotes the same words up to length 3 and the argument is untouched'.format(cases))
+
+
+# ---- simple grammar format: print / parse round trip ------------------------------------------------------------------------------------------
+
+_SIMPLE_GRAMMARS = {
+    'S -> aSb | eps': [('S', ['aSb', ''])],
+    'S -> aT; T -> bT | eps (the empty alternative is not on the first line)': [('S', ['aT']), ('T', ['bT', ''])],
+    'S -> AB | a; A -> aA | eps; B -> bB | A': [('S', ['AB', 'a']), ('A', ['aA', '']), ('B', ['bB', 'A'])],
+    'S -> a (no empty alternative)': [('S', ['a'])],
+    'S -> eps': [('S', [''])],
+    'S -> AB; A -> a; B -> b | eps | BB (the empty alternative in the middle)': [('S', ['AB']), ('A', ['a']), ('B', ['b', '', 'BB'])],
+    'S -> T | U; T -> abc; U -> S (unit rules, a long terminal string)': [('S', ['T', 'U']), ('T', ['abc']), ('U', ['S'])],
+}
+
+
+def check_simple_cfg_roundtrip(ctx, rep, fp=None, fr=None, rule=RULE + '.M39'):
+    """parse_simple_cfg(cfg_print_simple(G)) on model grammars in the simple format whose variables all have rules: the same
+    variables, terminals, start variable and rules (as a list, in order -- the reader takes the start variable from the first
+    rule).  The empty alternative occurs on the first line, on a later line only, in the middle of a line, and not at all."""
+    from .small_models2 import _grammar, _rules_of, _CFG_CLASSES
+    fp = fp or ctx.prog.func('cfg_algorithms.cfg_print_simple')
+    fr = fr or ctx.prog.func('cfg_algorithms.parse_simple_cfg')
+    classes = dict(_CFG_CLASSES)
+    classes['Variable'] = lambda x: V(str(x))
+    classes['Terminal'] = lambda x: T(str(x))
+    classes['CFG'] = lambda Vs, Sigma, R, S, *a, **k: Obj('CFG', V=Vs, Sigma=Sigma, R=R, S=S)
+    cases = 0
+    try:
+        for name, rules in _SIMPLE_GRAMMARS.items():
+            for order in ('asc', 'desc'):
+                G = _grammar(rules)
+                G._f['epsilon'] = T('ε')
+                before = (_rules_of(G), {str(x) for x in G._f['V']}, {str(x) for x in G._f['Sigma']}, str(G._f['S']))
+                try:
+                    text = _interp(ctx, order, classes=classes).call(fp, [G])
+                    if not isinstance(text, str):
+                        raise Unsupported('the printer did not return a string')
+                    H = _interp(ctx, order, classes=classes).call(fr, [text])
+                except Raised as ex:
+                    if ex.name in ('TypeError', 'AttributeError') and not getattr(ex, 'certain', False):
+                        raise Unsupported('the evaluator met a {} it cannot attribute to the code'.format(ex.name))
+                    rep.violates(rule, fr, 'def ' + fr.name, 'printing and re-reading the grammar {} raises {} ({})'.format(name, ex.name, ex.msg))
+                    return
+                if not isinstance(H, Obj) or H._cls != 'CFG':
+                    raise Unsupported('the reader did not return a grammar')
+                cases += 1
+                after = (_rules_of(H), {str(x) for x in H._f['V']}, {str(x) for x in H._f['Sigma']}, str(H._f['S']))
+                for what, a, b in zip(('rules', 'variables', 'terminals', 'start variable'), before, after):
+                    if a != b:
+                        rep.violates(rule, fr, 'def ' + fr.name, 'print / parse round trip of the grammar {}: the {} were {} and are read back as {}; text: {!r}'.format(name, what, a, b, text))
+                        return
+    except (Unsupported, RecursionError) as e:
+        rep.undecided(rule, fr, 'def ' + fr.name, 'outside the evaluator: {}'.format(e))
+        return
+    rep.holds(rule, fr, 'def ' + fr.name, 'on {} round trips ({} model grammars in the simple format, two iteration orders of sets; the empty alternative on the first line, on a later line only, in the middle of a line, nowhere) the grammar read back has the same rules in the same order, variables, terminals and start variable'.format(cases, len(_SIMPLE_GRAMMARS)))
